@@ -698,6 +698,55 @@ func c20Round(run *vfRun, w *vfWorld, r, nVal int) {
 		if lost == 1 {
 			run.Inconclusive("one in-place rewrite pair did not end with the final contents in force")
 		}
+		// an UNREADABLE version (round 6): the path is replaced by something that opens but cannot be read (a directory: read
+		// fails with EISDIR — the same class as EIO / ESTALE on a network file system). That reload has failed, there are no
+		// "new contents": the previous contents stay in force, as for a version that fails to parse.
+		{
+			inForce := -1
+			for j := c20N; j >= 1; j-- {
+				if c20Bad(j) {
+					continue
+				}
+				if ans, ok := tg.ask(c20Probe{"vuser", j}, false); ok && ans {
+					inForce = j
+					break
+				}
+			}
+			if inForce > 0 {
+				_ = os.Remove(tg.path)
+				_ = os.Mkdir(tg.path, 0o700)
+				time.Sleep(400 * time.Millisecond) // the watcher resumes on the directory and tries to load it
+				a1, ok1 := tg.ask(c20Probe{"vuser", inForce}, false)
+				a2, ok2 := tg.ask(c20Probe{"always", 0}, false)
+				run.Eval(fmt.Sprintf("%s|unreadable version|previous contents stay in force", tg.name))
+				run.Count(tg.name+"_unreadable_versions", 1)
+				if ok1 && ok2 && (!a1 || !a2) {
+					run.Violation("c20:unreadable-version-replaces-contents", fmt.Sprintf("%s: the file was replaced by a directory (opens, read fails with EISDIR); 400 ms later the entries of the previous version %d are no longer valid (vuser-%d: %v, always: %v) — a failed reload must leave the previous contents in force", tg.name, inForce, inForce, a1, a2),
+						map[string]interface{}{"flags": p.Flags, "file": tg.name, "previous_version": inForce})
+				}
+				_ = os.Remove(tg.path)
+				next := inForce - 1
+				for next > 1 && c20Bad(next) {
+					next--
+				}
+				if next >= 1 {
+					_ = c20WriteFile(tg.path, tg.content(next), next)
+					back := false
+					for tries := 0; tries < 600; tries++ {
+						if ans, ok := tg.ask(c20Probe{"vuser", next}, false); ok && ans {
+							back = true
+							break
+						}
+						time.Sleep(5 * time.Millisecond)
+					}
+					if back {
+						run.Count(tg.name+"_readable_version_after_unreadable_became_visible", 1)
+					} else {
+						run.Count(tg.name+"_readable_version_after_unreadable_not_visible_within_bound", 1)
+					}
+				}
+			}
+		}
 		// removal and late replacement (rm, then a deployment step that writes the new file some time later): the new
 		// contents — and every version after them — must still come into force. Quick tier: first round only.
 		if r == 0 || run.Env.Thorough() {
